@@ -33,6 +33,7 @@ Fixpoint replay (s : state) (evs : list (nat * nat)) : list (nat * bool * nat * 
   end.
 '''
 LIBS = (str(common.REPO) + '/xmlschema/', '/elementpath/')
+PCT_WINDOW = 700
 # The five steps of the build body, identified by the callee (function name, file) of calls made - directly or through a
 # private helper - while a build() frame of the observed maps is running: no statement text or line number is used, so a
 # rewrite of build() that keeps its behaviour keeps the observation.
@@ -45,8 +46,18 @@ class Stall(Exception):
 
 
 class Sched:
-    def __init__(self, rng, p_switch):
+    def __init__(self, rng, p_switch, pct=None):
         self.rng, self.p = rng, p_switch
+        # priority schedule for the phase after the build (PCT): the runnable thread of highest priority runs; at `pct`
+        # random points (counted from the moment the flag is up, within the first PCT_WINDOW points) the running thread
+        # drops below all others.  A thread stopped at such a point stays stopped until the others are done or blocked.
+        self.pct = pct
+        self.prio = {}
+        self.pct_step = 0
+        self.calls = {}
+        self.pct_points = set(rng.randrange(PCT_WINDOW) for _ in range(pct)) if pct and not isinstance(pct, list) else set()
+        if isinstance(pct, list):       # explicit change points (systematic sweep)
+            self.pct_points = set(pct)
         self.cv = threading.Condition()
         self.current = None
         self.alive = []
@@ -76,11 +87,31 @@ class Sched:
                     self.error = 'stall: thread %s waited 30 s for the baton' % me
                     raise Stall(self.error)
 
-    def yield_point(self, force=False):
+    def _best(self, cands):
+        return max(cands, key=lambda t: self.prio.setdefault(t, self.rng.random()))
+
+    def yield_point(self, force=False, code=None):
         me = self.tid()
         if me is None or self.current != me:
             return
         self.points += 1
+        if self.pct and not force and self.target is not None and self.target._built:
+            self.prio.setdefault(me, self.rng.random())
+            # change points are counted over the calls of rarely executed functions (at most twice so far in this run):
+            # state shared through the schema object is set up in code that runs once per schema, not in the hot paths
+            if code is not None:
+                n = self.calls[code] = self.calls.get(code, 0) + 1
+                if n <= 2:
+                    self.pct_step += 1
+                    if self.pct_step in self.pct_points:
+                        self.prio[me] = min(self.prio.values()) - 1.0
+            with self.cv:
+                cands = self._runnable(me)
+                if cands:
+                    best = self._best(cands)
+                    if self.prio[best] > self.prio[me]:
+                        self._handoff(me, best)
+            return
         if not force and self.rng.random() >= self.p:
             return
         with self.cv:
@@ -90,7 +121,7 @@ class Sched:
                     self.error = 'deadlock: thread %s blocked and no other thread can run' % me
                     raise Stall(self.error)
                 return
-            self._handoff(me, self.rng.choice(cands))
+            self._handoff(me, self._best(cands) if self.pct and self.target is not None and self.target._built else self.rng.choice(cands))
 
     def run(self, fns):
         threads = []
@@ -114,7 +145,7 @@ class Sched:
                     self.alive.remove(i)
                     if self.alive:
                         cands = self._runnable(None) or self.alive
-                        self.current = self.rng.choice(cands)
+                        self.current = self._best(cands) if self.pct else self.rng.choice(cands)
                     else:
                         self.current = None
                     self.cv.notify_all()
@@ -171,7 +202,7 @@ class Sched:
                             self.events.append(('body_start', self.tid()))
                     else:
                         self.events.append(('step_out_of_order', self.tid(), k, st['done']))
-            self.yield_point()
+            self.yield_point(code=code)
         return None
 
     def line_tracer(self, frame, event, arg):
@@ -347,11 +378,13 @@ def subject(case):
     locate_build()
     base = baseline(xmlschema, case)
     schema = unbuilt_schema(xmlschema, case['version'], **({'defuse': 'always'} if case.get('family') == 'streams' else {}))
+    if case.get('prebuilt'):
+        schema.build()
     n = len(case['programs'])
     results = [None] * n
     out = {'baseline_ok': True}
     if case['mode'] == 'controlled':
-        sched = Sched(random.Random(case['seed']), case['p'])
+        sched = Sched(random.Random(case['seed']), case['p'], pct=case.get('pct'))
         sched.target = schema.maps
         object.__setattr__(schema.maps, '_build_lock', ProxyLock(sched, 'build'))
         schema.maps.cache._lock = ProxyLock(sched, 'cache')
@@ -360,7 +393,7 @@ def subject(case):
             sched.run(thread_programs(xmlschema, schema, case, results))
         finally:
             STREAM['sched'] = None
-        out.update(switches=sched.switches, points=sched.points, events=sched.events, error=sched.error)
+        out.update(switches=sched.switches, points=sched.points, events=sched.events, error=sched.error, rare=sched.pct_step)
     else:
         old = sys.getswitchinterval()
         sys.setswitchinterval(1e-6)
@@ -466,8 +499,8 @@ def evaluate(ctx, cases):
         if not o['globals_equal'] or not o['built']:
             ctx.violation('after the racing build the global components differ from a sequential build (built=%s)' % o['built'], rep)
             continue
-        if c['mode'] != 'controlled':
-            continue
+        if c['mode'] != 'controlled' or c.get('prebuilt'):
+            continue        # (a schema built before the threads start has no build protocol to observe)
         # protocol correspondence with Dcl.v
         starts = sum(1 for e in o['events'] if e[0] == 'body_start')
         ctx.dist('build body executions', starts)
@@ -531,7 +564,7 @@ def gen(ctx):
                       'p': r.choice([0.002, 0.01, 0.05, 0.2])})
     # focused families: (a) every thread goes through the per-schema scratch context, (b) every thread meets the first use
     # of an xsi:type inside an identity scope (registration of the identity elements) with duplicated values
-    for i in range(30 if q else 300):
+    for i in range(80 if q else 600):
         seed = ctx.rng.randrange(10 ** 9)
         r = random.Random(seed)
         n = r.randint(2, 4)
@@ -547,7 +580,28 @@ def gen(ctx):
             programs = [[[r.choice(['decode_lax', 'iter_errors', 'is_valid']), r.randrange(len(docs)), 0] for _ in range(r.randint(1, 2))]
                         for _ in range(n)]
         cases.append({'seed': seed, 'version': '1.1' if i % 3 else '1.0', 'docs': docs, 'programs': programs, 'mode': 'controlled',
-                      'p': r.choice([0.05, 0.2, 0.5]), 'family': 'scratch' if i % 2 else 'registration'})
+                      # registration: long runs too, so that one thread gets through a whole document while another one
+                      # is in the middle of binding the elements of the instance type to the identity constraint
+                      'p': r.choice([0.05, 0.2, 0.5] if i % 2 else [0.003, 0.01, 0.03, 0.1]),
+                      'family': 'scratch' if i % 2 else 'registration'})
+        if i % 4 == 0:
+            cases[-1]['pct'] = r.randint(1, 3)
+    # (b') systematic: two threads meet the first use of an xsi:type inside an identity scope on a built schema; one run for
+    # every rarely-executed call k: the thread that makes it is set aside there until the other one is done or blocked
+    for j in range(1 if q else 8):
+        seed = ctx.rng.randrange(10 ** 9)
+        r = random.Random(seed)
+        docs = []
+        while len(docs) < 2:
+            d = pool_doc(r)
+            if d['root'] in ('R', 'R2') and d['xml'].count('xsi:type="B"') + d['xml'].count('xsi:type="C"') >= 2 and d['xml'].count('<item>') >= 3:
+                docs.append(d)
+        # both threads validate the same document, so whatever the first one is in the middle of registering is needed by
+        # the second one too
+        programs = [[[r.choice(['iter_errors', 'decode_lax']), 0, 0]] for k in range(2)]
+        for k in range(PCT_WINDOW):
+            cases.append({'seed': seed, 'version': '1.1' if j % 2 else '1.0', 'docs': docs, 'programs': programs, 'mode': 'controlled',
+                          'p': 0.0, 'family': 'registration-sweep', 'pct': [k], 'prebuilt': True})
     # (c) the source of every call is a stream with short reads and the shared schema defuses always: documents with a
     # long prolog, with or without a DOCTYPE that declares an entity (refused sequentially)
     for i in range(80 if q else 800):
